@@ -49,6 +49,10 @@ DstInputs(c, xs, xd, cats) ==
             Fsm([h |-> h, t |-> "KA", progress |-> 1]), Fsm([h |-> h, t |-> "PROMPT", resp |-> 0]),
             Fsm(DMd(c, [h EXCEPT !.dir = "TS"])), Fsm(DFd(c, [h EXCEPT !.dv = @ + 1], 0, 1)), Fsm(DEof(c, [h EXCEPT !.sv = @ + 1], "NO_ERROR", n, TRUE)),
             Fsm(DFd(c, [h EXCEPT !.mode = IF c.mode = "ACK" THEN "UNACK" ELSE "ACK"], 0, 1)) } ELSE {})
+  \* PDUs of ANOTHER transaction of the same sender (next sequence number): the receiver does not tell them apart
+  \cup (IF "stale" \in cats THEN
+          { Fsm(DFd(c, [h EXCEPT !.qv = @ + 1], 0, 1)), Fsm(DEof(c, [h EXCEPT !.qv = @ + 1], "NO_ERROR", n, TRUE)),
+            Fsm(DMd(c, [h EXCEPT !.qv = @ + 1])), Fsm(DAck([h EXCEPT !.qv = @ + 1], "FIN")) } ELSE {})
 
 \* ---- source ----
 SReq(c, exists, known, mode, closure) ==
